@@ -383,6 +383,62 @@ def gen() -> None:
                + tcs.body(_stmts(_method(C, "_value_matches")),
                           ["def _normalize(name: str) -> str:\n    try:\n        return codecs.lookup(name).name\n"
                            "    except (LookupError, ValueError):\n        return name.lower()"]) + ".")
+    # LanguageAccept.best_match: the three stages, statement by statement (the model is Model.lang_best_match)
+    _expect(_stmts(_method(L, "best_match")),
+            ["result = super().best_match(matches)", "if result is not None:\n    return result",
+             "fallback = Accept([(_locale_delim_re.split(item[0], 1)[0], item[1]) for item in self])",
+             "result = fallback.best_match(matches)", "if result is not None:\n    return result",
+             "fallback_matches = [_locale_delim_re.split(item, 1)[0] for item in matches]",
+             "result = super().best_match(fallback_matches)",
+             "if result is not None:\n    return next((item for item in matches if _locale_delim_re.split(item, 1)[0] == result))",
+             "return default"], "LanguageAccept.best_match")
+
+    # MIMEAccept.accept_html / accept_xhtml / accept_json: boolean expressions over `<type> in self`
+    def conv(node: ast.expr) -> str:
+        if isinstance(node, ast.BoolOp):
+            return "(" + (" && " if isinstance(node.op, ast.And) else " || ").join(conv(v) for v in node.values) + ")"
+        if (isinstance(node, ast.Compare) and len(node.ops) == 1 and isinstance(node.ops[0], ast.In)
+                and isinstance(node.left, ast.Constant) and isinstance(node.left.value, str)
+                and ast.unparse(node.comparators[0]) == "self"):
+            return f"(inself {px.coq_string_codes(node.left.value)})"
+        if ast.unparse(node) == "self.accept_xhtml":
+            return "accept_xhtml"
+        raise px.Unsupported(f"convenience property expression not recognised: {ast.unparse(node)!r}")
+    for name, params in [("accept_xhtml", "(inself : str -> bool)"), ("accept_html", "(inself : str -> bool) (accept_xhtml : bool)"),
+                         ("accept_json", "(inself : str -> bool)")]:
+        body = _stmts(_method(M, name))
+        if not (len(body) == 1 and isinstance(body[0], ast.Return) and body[0].value is not None):
+            raise px.Unsupported(f"MIMEAccept.{name} is not a single return")
+        txt = conv(body[0].value)
+        if name != "accept_html" and "accept_xhtml" in txt:
+            raise px.Unsupported(f"MIMEAccept.{name} refers to accept_xhtml")
+        out.append(f"Definition {name}_gen {params} : bool := {txt}.")
+
+    # Request.accept_*: header name and class of each cached_property (sansio/request.py)
+    req = px.find_class(px.load("sansio/request.py"), "Request")
+    fam_code = {None: 0, "MIMEAccept": 1, "LanguageAccept": 2, "CharsetAccept": 3}
+    rows = []
+    for fn in req.body:
+        if isinstance(fn, ast.FunctionDef) and fn.name.startswith("accept_"):
+            if [ast.unparse(d) for d in fn.decorator_list] != ["cached_property"]:
+                raise px.Unsupported(f"Request.{fn.name} is not a cached_property")
+            body = _stmts(fn)
+            ok = (len(body) == 1 and isinstance(body[0], ast.Return) and isinstance(body[0].value, ast.Call)
+                  and ast.unparse(body[0].value.func) == "parse_accept_header" and not body[0].value.keywords
+                  and 1 <= len(body[0].value.args) <= 2)
+            if ok:
+                a0 = body[0].value.args[0]
+                ok = (isinstance(a0, ast.Call) and ast.unparse(a0.func) == "self.headers.get" and len(a0.args) == 1
+                      and not a0.keywords and isinstance(a0.args[0], ast.Constant) and isinstance(a0.args[0].value, str))
+            if not ok:
+                raise px.Unsupported(f"Request.{fn.name} is not `return parse_accept_header(self.headers.get(<name>)[, <class>])`")
+            cls_name = ast.unparse(body[0].value.args[1]) if len(body[0].value.args) == 2 else None
+            if cls_name not in fam_code:
+                raise px.Unsupported(f"Request.{fn.name} uses the unknown class {cls_name}")
+            rows.append((fn.name, a0.args[0].value, fam_code[cls_name]))
+    out.append("(* (attribute, header name, class: 0 Accept, 1 MIMEAccept, 2 LanguageAccept, 3 CharsetAccept) *)")
+    out.append("Definition request_accept_glue : list (list N * list N * N) := ["
+               + "; ".join(f"({px.coq_string_codes(a)}, {px.coq_string_codes(h)}, {c})" for a, h, c in rows) + "].")
     for cls, names in [(L, {"_value_matches", "best_match"}), (C, {"_value_matches"})]:
         extra = {n.name for n in cls.body if isinstance(n, ast.FunctionDef)} - names
         if extra:
@@ -397,6 +453,8 @@ def gen() -> None:
 # ====================================================================== harness (tie b)
 
 FAMS = ["base", "mime", "lang", "charset"]
+GLUE = {"accept_mimetypes": ("Accept", "mime"), "accept_charsets": ("Accept-Charset", "charset"),
+        "accept_encodings": ("Accept-Encoding", "base"), "accept_languages": ("Accept-Language", "lang")}
 
 Q_VALID = ["0", "0.001", "0.5", "1", "1.000", "0.0", "0.50", "0.7", "0.8", "0.9", "0.123456789012345", "1.0", "01", "-0",
            "-0.0", "0.3", "0.30", "0.999", "0.10", "0.1", "000.5", "0.00000000000000001"]
@@ -627,8 +685,23 @@ def _observe(acc, offers):
             ins.append(o in acc)
         except Exception as e:  # noqa: BLE001
             ins.append(_exn(e))
+    def call(fn):
+        try:
+            return fn()
+        except Exception as e:  # noqa: BLE001
+            return _exn(e)
+    n = len(items)
+    more = {
+        "finds": [call(lambda o=o: acc.find(o)) for o in offers],
+        "idxs": [call(lambda o=o: acc.index(o)) for o in offers],
+        "getstr": [call(lambda o=o: acc[o]) for o in offers],
+        "getint": [call(lambda i=i: acc[i]) for i in (0, -1, n, -n - 1)],
+        "bmd": call(lambda: acc.best_match(offers, "zz")),
+        "conv": ("".join(str(int(bool(x))) for x in (acc.accept_html, acc.accept_xhtml, acc.accept_json))
+                 if hasattr(acc, "accept_html") else "-"),
+    }
     return {"items": items, "best": best, "bm": bm, "quals": quals, "ins": ins,
-            "th": acc.to_header(), "str": str(acc), "values": list(acc.values())}
+            "th": acc.to_header(), "str": str(acc), "values": list(acc.values()), **more}
 
 
 def _impl_header(fam: str, header: str, offers):
@@ -653,7 +726,13 @@ def _parse_model(line: str):
     """model output -> the same structure as _observe (qualities as Fractions)"""
     if not line.startswith("ok "):
         return line
-    _, items, best, bm, quals, ins, th, vals = line.split(" ")
+    _, items, best, bm, quals, ins, th, vals, fd, ix, gi, bd, cv = line.split(" ")
+
+    def one_item(t):
+        if t.startswith("!"):
+            return t
+        v, n, s = t.split(":")
+        return (_unq(v), _frac(n + ":" + s))
     its = []
     if items != "~":
         for it in items.split("|"):
@@ -662,7 +741,11 @@ def _parse_model(line: str):
     return {"items": its, "best": _unq(best), "bm": bm if bm.startswith("!") else _unq(bm),
             "quals": [] if quals == "~" else [q if q.startswith("!") else _frac(q) for q in quals.split("|")],
             "ins": [] if ins == "~" else [i if i.startswith("!") else i == "1" for i in ins.split("|")],
-            "th": _unq(th), "values": [] if vals == "~" else [_unq(v) for v in vals.split("|")]}
+            "th": _unq(th), "values": [] if vals == "~" else [_unq(v) for v in vals.split("|")],
+            "finds": [] if fd == "~" else [x if x.startswith("!") else int(x) for x in fd.split("|")],
+            "idxs": [] if ix == "~" else [x if x.startswith("!") else int(x) for x in ix.split("|")],
+            "getint": [one_item(t) for t in gi.split("|")],
+            "bmd": bd if bd.startswith("!") else _unq(bd), "conv": cv}
 
 
 def _qeq(f, x) -> bool:
@@ -678,11 +761,26 @@ def _repr_domain(items) -> bool:
     return all(q == 1 or (q == 0 and math.copysign(1, q) > 0) or 1e-4 <= q < 1 for _, q in items)
 
 
+def _qeq2(a, b) -> bool:
+    return a == b if isinstance(a, str) or isinstance(b, str) else float(a) == float(b)
+
+
 def _same(model, impl) -> bool:
     if isinstance(model, str) or isinstance(impl, str):
         return model == impl
     if model["values"] != impl["values"] or impl["str"] != impl["th"]:
         return False
+    if (model["finds"] != impl["finds"] or model["idxs"] != impl["idxs"] or model["bmd"] != impl["bmd"]
+            or model["conv"] != impl["conv"]):
+        return False
+    if len(impl["getstr"]) != len(impl["quals"]) or not all(_qeq2(a, b) for a, b in zip(impl["getstr"], impl["quals"])):
+        return False          # accept[key] is quality(key)
+    for a, b in zip(model["getint"], impl["getint"]):
+        if isinstance(a, str) or isinstance(b, str):
+            if a != b:
+                return False
+        elif a[0] != b[0] or not _qeq(a[1], b[1]):
+            return False
     if _repr_domain(impl["items"]) and model["th"] != impl["th"]:
         return False
     return (len(model["items"]) == len(impl["items"])
@@ -884,6 +982,9 @@ def run(chk: Check) -> None:
 
     lines: list[str] = []
     expect: list = []        # (kind, impl observation, case) per line; None = not compared
+    from werkzeug.datastructures import Headers
+    from werkzeug.sansio.request import Request as SansRequest
+    glue_n = [0]
 
     def add_header_case(fam, header, offers, meta, origin):
         inp = {"family": fam, "header": header, "offers": offers}
@@ -904,6 +1005,18 @@ def run(chk: Check) -> None:
                 _oracle(chk, fam, header, offers, obs, acc, meta, inp)
             except Exception as e:  # noqa: BLE001
                 chk.broken("oracle", "C17 impl-level oracle", repr(e), case=inp)
+        glue_n[0] += 1
+        if glue_n[0] % 3 == 0 and not isinstance(obs, str):
+            # request-level glue: the attribute reads its own header and wraps it in its own class; the other three
+            # headers carry decoys
+            hdrs = [(h, header if f2 == fam else "decoy-" + f2 + ";q=0.25") for _a, (h, f2) in GLUE.items()]
+            req = SansRequest("GET", "http", None, "", "/", b"", Headers(hdrs), None)
+            attr = next(a for a, (_h, f2) in GLUE.items() if f2 == fam)
+            got = getattr(req, attr)
+            if type(got) is not classes[fam] or [(v, q) for v, q in got] != obs["items"]:
+                chk.fail("request-glue", f"Request.{attr} = {type(got).__name__}({list(got)!r}), "
+                         f"parse_accept_header gives {classes[fam].__name__}({obs['items']!r})", inp)
+            chk.count("glue:Request." + attr)
         nontrivial = not isinstance(obs, str) and len(obs["items"]) > 0
         chk.case(("hdr", fam, header, tuple(offers)), nontrivial=nontrivial,
                  sample={"family": fam, "header": header, "offers": offers,
@@ -1017,6 +1130,23 @@ def run(chk: Check) -> None:
             if (float(a) < float(b)) != (Fraction(a) < Fraction(b)) or (float(a) == float(b)) != (Fraction(a) == Fraction(b)):
                 chk.broken("contract", "float order vs decimal rational order", f"{a} / {b}")
     chk.count("contract:float-order-pairs", len(lits) ** 2)
+    # codecs.lookup contract of C17_charset_contract: ASCII letter case is ignored; a canonical name is lower-case and
+    # resolves to itself.  Validated over the interpreter's whole alias table and the pools.
+    import encodings.aliases
+
+    def lk(n):
+        try:
+            return codecs.lookup(n).name
+        except (LookupError, ValueError):
+            return None
+    names = set(encodings.aliases.aliases) | set(encodings.aliases.aliases.values()) | set(POOL["charset"][0]) | set(POOL["charset"][1])
+    for n in sorted(names):
+        c0 = lk(n)
+        if lk(_ascii_lower(n)) != c0 or lk(n.upper()) != c0:
+            chk.broken("contract", "codecs.lookup ignores ASCII letter case", n)
+        if c0 is not None and (lk(c0) != c0 or _ascii_lower(c0) != c0):
+            chk.broken("contract", "codecs.lookup canonical names are lower-case fixpoints", f"{n} -> {c0}")
+    chk.count("contract:codecs.lookup names", len(names))
 
     # ------------------------------------------------ model side
     exe = chk.build_modelrun(PID)
@@ -1070,7 +1200,11 @@ def main(chk: Check) -> None:
         "(smaller floats print with an exponent and the sign of -0.0 is lost: those cases are not compared)",
         "sorted(..., reverse=True) is a stable sort that keeps the input order of equal keys (modelled by the stable insertion "
         "sort of C17/LibSort.v; validated differentially)",
-        "codecs.lookup(name).name / LookupError enters the model as a table computed by the harness for the names of each case",
+        "codecs.lookup(name).name / LookupError enters the model as a table computed by the harness for the names of each case; "
+        "its contract (hypotheses of C17_charset_contract: ASCII letter case ignored, canonical names lower-case fixpoints) is "
+        "validated over the interpreter's encodings.aliases table on every run",
+        "Request.accept_* glue: header name and class regenerated from sansio/request.py (C17_request_glue_pinned) and exercised "
+        "on a third of the header cases through werkzeug.sansio.request.Request with decoy values in the other three headers",
         "hand-written matchers for urllib.request.parse_http_list, _parameter_key_re / _parameter_token_value_re / _continuation_re "
         "/ _q_value_re / _mime_split_re / _locale_delim_re (pattern texts pinned in C17/Gen.v), str.strip/lstrip (29 white-space "
         "code points), str.replace, str.lower on ASCII (cases whose Unicode lower differs are skipped and counted); validated "
